@@ -1,6 +1,6 @@
 (* C17: the printing sites (disambiguation, formal parameters, get-assignment, get-value echo, unsat-core names,
    sort names, default definitions): what fails on the faithful model, what holds on the repaired one. *)
-From Coq Require Import String Ascii List Bool Arith Lia DecimalString Decimal DecimalNat.
+From Coq Require Import String Ascii List Bool Arith Lia DecimalString Decimal DecimalNat DecimalFacts.
 From OsmtV.Print Require Import Gen_Tokens Reader ReaderProofs Quote QuoteProofs.
 Import ListNotations.
 Open Scope string_scope.
@@ -30,9 +30,11 @@ Qed.
 
 Lemma isQuoted_in_bars : forall s, nonempty s = true -> isQuoted (in_bars s) = true.
 Proof.
-  intros s H. unfold isQuoted, in_bars, bar. cbn [append front].
-  rewrite (back_app_char s c_bar). rewrite Ascii.eqb_refl. rewrite andb_true_r.
-  destruct s as [|c r]; [discriminate|]. cbn [append String.length]. rewrite length_app. simpl. reflexivity.
+  intros s H. unfold isQuoted.
+  assert (Hb : back (in_bars s) = c_bar).
+  { unfold in_bars. rewrite <- app_assoc_str. unfold bar at 2. apply back_app_char. }
+  rewrite Hb. unfold in_bars, bar. cbn [append front]. rewrite Ascii.eqb_refl. rewrite !andb_true_r.
+  destruct s as [|c r]; [discriminate|]. cbn [append String.length]. rewrite length_app. apply Nat.ltb_lt. simpl. lia.
 Qed.
 
 Lemma isQuoted_legal_bare : forall s, legal_symbol s -> isQuoted s = false.
@@ -60,7 +62,7 @@ Proof.
   cbn [negb orb v_view_key_bug repaired andb].
   destruct (protect_cases repaired (sd_name d)) as [E | (E & _)]; rewrite E.
   - rewrite (isQuoted_in_bars _ Hne), andb_false_r, inner_in_bars, Ha, orb_true_r. reflexivity.
-  - rewrite (isQuoted_legal_bare _ Hl), Ha, orb_true_r. reflexivity.
+  - rewrite (isQuoted_legal_bare _ Hl). cbn [andb]. rewrite Ha, orb_true_r. reflexivity.
 Qed.
 
 (* ---------------------------------------------------------------------------------------------
@@ -138,16 +140,178 @@ Proof.
 Qed.
 
 (* the loop always finds a name: among length user + 1 consecutive candidates one is not a user name *)
+Lemma to_uint_nonnil : forall n, Nat.to_uint n <> Nil.
+Proof.
+  intros n. pose proof (Unsigned.to_of (Nat.to_uint n)) as H. rewrite Unsigned.of_to in H.
+  rewrite H. apply unorm_nonnil.
+Qed.
+
 Lemma dec_inj : forall a b, dec a = dec b -> a = b.
 Proof.
   intros a b H. unfold dec in H.
-  assert (Ha : NilZero.uint_of_string (NilZero.string_of_uint (Nat.to_uint a)) = Some (Nat.to_uint a)).
-  { apply NilZero.usu. intro E. apply (f_equal Nat.of_uint) in E. rewrite Unsigned.of_to in E.
-    destruct a; [|]; revert E; clear.
-    - intros E. pose proof (Unsigned.to_uint_nonnil 0). auto.
-    - intros E. pose proof (Unsigned.to_uint_nonnil (S a)). auto. }
-  assert (Hb : NilZero.uint_of_string (NilZero.string_of_uint (Nat.to_uint b)) = Some (Nat.to_uint b)).
-  { apply NilZero.usu. apply Unsigned.to_uint_nonnil. }
+  pose proof (NilZero.usu (Nat.to_uint a) (to_uint_nonnil a)) as Ha.
+  pose proof (NilZero.usu (Nat.to_uint b) (to_uint_nonnil b)) as Hb.
   rewrite H in Ha. rewrite Ha in Hb. inversion Hb as [E].
-  apply (f_equal Nat.of_uint) in E. rewrite !Unsigned.of_to in E. exact E.
+  apply Unsigned.to_uint_inj. exact E.
+Qed.
+
+Lemma app_inv_head_str : forall p a b : string, p ++ a = p ++ b -> a = b.
+Proof. induction p as [|c p IH]; simpl; intros x y H; [exact H|]. inversion H. auto. Qed.
+
+(* candidates prefix ++ dec k for k in [num, num + n) *)
+Fixpoint candidates (prefix : string) (num n : nat) : list string :=
+  match n with O => [] | S k => (prefix ++ dec num) :: candidates prefix (S num) k end.
+
+Lemma candidates_In : forall prefix n num x, In x (candidates prefix num n) -> exists k, num <= k < num + n /\ x = prefix ++ dec k.
+Proof.
+  induction n; intros num x H; [destruct H|]. destruct H as [H|H].
+  - exists num. split; [lia|auto].
+  - apply IHn in H as [k [Hk E]]. exists k. split; [lia|exact E].
+Qed.
+
+Lemma candidates_NoDup : forall prefix n num, NoDup (candidates prefix num n).
+Proof.
+  induction n; intros num; [constructor|]. cbn [candidates]. constructor; [|apply IHn].
+  intros H. apply candidates_In in H as [k [Hk E]]. apply app_inv_head_str in E. apply dec_inj in E. lia.
+Qed.
+
+Lemma candidates_length : forall prefix n num, List.length (candidates prefix num n) = n.
+Proof. induction n; intros; simpl; [reflexivity|]. rewrite IHn. reflexivity. Qed.
+
+(* if the first n candidates all clash, they are n distinct user names *)
+Lemma fresh_param_none : forall user prefix s fuel num,
+  fresh_param repaired user prefix s num fuel = None -> incl (candidates prefix num fuel) (user_names user).
+Proof.
+  induction fuel; intros num H; [intros x []|]. cbn [fresh_param] in H.
+  destruct (clashes repaired user (prefix ++ dec num, s)) eqn:E; [|discriminate].
+  intros x [Hx|Hx].
+  - subst x. unfold clashes in E. cbn [v_formal_by_term repaired] in E.
+    apply existsb_exists in E as [u [Hu Eu]]. apply String.eqb_eq in Eu. simpl in Eu.
+    unfold user_names. apply in_map_iff. exists u. auto.
+  - exact (IHfuel (S num) H x Hx).
+Qed.
+
+Lemma fresh_param_total : forall user prefix s num,
+  fresh_param repaired user prefix s num (S (List.length user)) <> None.
+Proof.
+  intros user prefix s num H. apply fresh_param_none in H.
+  pose proof (NoDup_incl_length (candidates_NoDup prefix (S (List.length user)) num) H) as L.
+  rewrite candidates_length in L. unfold user_names in L. rewrite map_length in L. lia.
+Qed.
+
+Lemma rename_params_total : forall user prefix ps num, rename_params repaired user prefix ps num <> None.
+Proof.
+  induction ps as [|[x s] r IH]; intros num; [discriminate|]. cbn [rename_params].
+  destruct (fresh_param repaired user prefix s num (S (List.length user))) as [[name num']|] eqn:E.
+  - destruct (rename_params repaired user prefix r num') as [[l n2]|] eqn:E2; [discriminate|].
+    exfalso. exact (IH num' E2).
+  - exfalso. exact (fresh_param_total user prefix s num E).
+Qed.
+
+Theorem resolve_repaired_total : forall user fs num, resolve_clashes repaired user fs num <> None.
+Proof.
+  induction fs as [|[d df] r IH]; intros num; [discriminate|]. cbn [resolve_clashes].
+  destruct (resolve_one repaired user d df num) as [[df' num']|] eqn:E.
+  - destruct (resolve_clashes repaired user r num') eqn:E2; [discriminate|]. exfalso. exact (IH num' E2).
+  - exfalso. unfold resolve_one in E.
+    destruct (existsb (clashes repaired user) (df_params df)); [|discriminate].
+    destruct (rename_params repaired user (safe_prefix (sd_name d)) (df_params df) num) as [[ps n2]|] eqn:E3; [discriminate|].
+    exact (rename_params_total _ _ _ _ E3).
+Qed.
+
+Theorem resolve_repaired_fresh : forall user fs num l,
+  resolve_clashes repaired user fs num = Some l -> Forall (params_fresh user) l.
+Proof.
+  induction fs as [|[d df] r IH]; intros num l H.
+  - inversion H. constructor.
+  - cbn [resolve_clashes] in H.
+    destruct (resolve_one repaired user d df num) as [[df' num']|] eqn:E; [|discriminate].
+    destruct (resolve_clashes repaired user r num') eqn:E2; [|discriminate].
+    inversion H; subst. constructor.
+    + eapply formal_arg_fresh_repaired; eassumption.
+    + eapply IH; eassumption.
+Qed.
+
+(* ---------------------------------------------------------------------------------------------
+   C. sites whose faithful output does not read back *)
+
+(* get-assignment with no named term: a lone closing parenthesis *)
+Theorem assignment_empty_refuted :
+  assignment_text faithful [] = FmtOut ")" /\ read_sexps std_cfg ")" = None.
+Proof. split; vm_compute; reflexivity. Qed.
+
+Theorem assignment_empty_repaired :
+  assignment_text repaired [] = FmtOut "()" /\ read_sexps std_cfg "()" = Some [SList []].
+Proof. split; vm_compute; reflexivity. Qed.
+
+(* get-assignment: names are printed raw and the text is used as a printf format *)
+Theorem assignment_names_refuted :
+  (exists t, assignment_text faithful [("a b", "true")] = FmtOut t /\ ~ reads_as std_cfg t (SList [SList [sym_tok "a b"; sym_tok "true"]]))
+  /\ (exists t, assignment_text faithful [("a%sb", "true")] = FmtUB t)
+  /\ (exists t, assignment_text faithful [("50%x", "true")] = FmtOut t /\ ~ reads_as std_cfg t (SList [SList [sym_tok "50%x"; sym_tok "true"]])).
+Proof.
+  split; [|split].
+  - eexists. split; [vm_compute; reflexivity|]. vm_compute. discriminate.
+  - eexists. vm_compute. reflexivity.
+  - eexists. split; [vm_compute; reflexivity|]. vm_compute. discriminate.
+Qed.
+
+Theorem assignment_names_repaired_examples :
+  (exists t, assignment_text repaired [("a b", "true"); ("a%sb", "false"); ("let", "true")] = FmtOut t /\
+             reads_as std_cfg t (SList [SList [sym_tok "a b"; sym_tok "true"]; SList [sym_tok "a%sb"; sym_tok "false"];
+                                        SList [sym_tok "let"; sym_tok "true"]])).
+Proof. eexists. split; vm_compute; reflexivity. Qed.
+
+(* get-value: the echo of the request *)
+Definition echo_ok (cfg : lexcfg) (v : variant) (a : ast) : Prop :=
+  snd (echo v a) = false /\ reads_as cfg (fst (echo v a)) (ast_sexp a).
+
+Theorem echo_roundtrip_refuted :
+  ~ echo_ok std_cfg faithful (A_app (H_sym "f") [A_sym "a b"])
+  /\ ~ echo_ok osmt_cfg faithful (A_app (H_sym "f") [A_sym "a b"])
+  /\ ~ echo_ok std_cfg faithful (A_sym "let")
+  /\ ~ echo_ok std_cfg faithful (A_bang (A_sym "p") "n")
+  /\ snd (echo faithful (A_app (H_sym "f") [A_as "c" U])) = true.
+Proof.
+  split; [|split; [|split; [|split]]].
+  - intros [H1 H2]; vm_compute in H2; discriminate.
+  - intros [H1 H2]; vm_compute in H2; discriminate.
+  - intros [H1 H2]; vm_compute in H2; discriminate.
+  - intros [H1 H2]; vm_compute in H2; discriminate.
+  - vm_compute. reflexivity.
+Qed.
+
+Theorem echo_repaired_examples :
+  echo_ok std_cfg repaired (A_app (H_sym "f") [A_sym "a b"; A_as "c" U; A_const "12"; A_const "0.5"])
+  /\ echo_ok osmt_cfg repaired (A_app (H_sym "f") [A_sym "a b"; A_as "c" U; A_const "12"])
+  /\ echo_ok std_cfg repaired (A_bang (A_app (H_sym "g h") [A_sym "let"; A_sym "_"]) "n 1")
+  /\ echo_ok std_cfg repaired (A_let [("x y", A_sym "12"); ("z", A_app (H_sym "+") [A_const "1"; A_sym "-5"])] (A_app (H_sym "f") [A_sym "x y"; A_sym "z"])).
+Proof. repeat split; vm_compute; reflexivity. Qed.
+
+(* get-unsat-core names, sort names, the name of a default definition *)
+Theorem core_names_refuted :
+  ~ reads_as std_cfg (core_names_text faithful ["n 1"; "let"]) (SList [sym_tok "n 1"; sym_tok "let"]).
+Proof. vm_compute. discriminate. Qed.
+
+Theorem core_names_repaired_example :
+  reads_as std_cfg (core_names_text repaired ["n 1"; "let"; "n3"]) (SList [sym_tok "n 1"; sym_tok "let"; sym_tok "n3"]).
+Proof. vm_compute. reflexivity. Qed.
+
+Theorem sort_name_refuted :
+  ~ reads_as std_cfg (sortToString faithful (Sort "S T" [])) (sort_sexp (Sort "S T" [])).
+Proof. vm_compute. discriminate. Qed.
+
+Theorem sort_name_repaired : forall n, legal_symbol n ->
+  read_symbol std_cfg (sortToString repaired (Sort n [])) = Some n.
+Proof. intros n H. cbn [sortToString v_sort_raw repaired]. apply protect_repaired_roundtrip_std. exact H. Qed.
+
+Theorem default_definition_name_refuted :
+  read_symbol std_cfg (df_name (default_definition faithful (usym "unused fn" [U] U))) <> Some "unused fn".
+Proof. vm_compute. discriminate. Qed.
+
+Theorem default_definition_name_repaired : forall d, legal_symbol (sd_name d) -> sd_interp d = false ->
+  read_symbol std_cfg (df_name (default_definition repaired d)) = Some (sd_name d).
+Proof.
+  intros d H Hi. cbn [default_definition df_name v_default_raw repaired]. rewrite Hi.
+  apply protect_repaired_roundtrip_std. exact H.
 Qed.
